@@ -39,6 +39,16 @@ func hookFor(kind string) bexpr.ValueTransformationHookFn {
 					return inner.Elem()
 				}
 			}
+		case "panicky":
+			// user code that panics on one particular value; whatever the library
+			// does with such a panic, it must do the same for every caller
+			x := v
+			for x.IsValid() && x.Kind() == reflect.Interface && !x.IsNil() {
+				x = x.Elem()
+			}
+			if x.IsValid() && x.Kind() == reflect.String && (x.String() == "POISON" || x.String() == "red") {
+				panic("hook refuses the value " + x.String())
+			}
 		case "poison":
 			x := v
 			for x.IsValid() && x.Kind() == reflect.Interface && !x.IsNil() {
